@@ -2,7 +2,7 @@
 (* Case sets for the key-exchange runs: every leading-zero corner of every fixed-width value
    (C06) and every single lie of the server (C07), as enumerated by Handshake.tla. *)
 EXTENDS Integers, Sequences, FiniteSets, TLC, Json, IOUtils, SequencesExt
-H == INSTANCE Handshake WITH Dev <- {}, SkipCheck <- {}, LZ <- {0, 1, 2},
+H == INSTANCE Handshake WITH Dev <- {}, SkipCheck <- {}, LZ <- {0, 1, 2}, MaxAttempts <- 2, memKey <- 0, attempt <- 0,
        lz <- [f \in {} |-> 0], lie <- 0, pc <- 0, stored <- 0, encSent <- 0, cKey <- 0, cSalt <- 0, sKey <- 0, sSalt <- 0
 
 \* harness names of the values whose leading bytes can be forced
@@ -12,9 +12,11 @@ CornerCases == {[corner |-> c, lz |-> k] : c \in Corners, k \in {1, 2}}
 
 Hows(l) == IF l.field = "kind" THEN (IF l.step = "dhGen" THEN {"retry", "fail"} ELSE {"fail"})
            \* "no offered fingerprint matches": one foreign fingerprint, several foreign ones, or none at all
-           ELSE IF l.field = "fingerprints" THEN {"flip", "fresh", "zero", "several", "none"}
-           ELSE IF l.field = "answer_hash" THEN {"flip", "fresh", "zero"}
-           ELSE {"flip", "fresh", "other", "zero"}
+           \* a wrong value is any value but the right one: one bit off, the same bit off in two bytes, two bytes transposed
+           \* (differences that cancel under a folding comparison), a fresh value, the other nonce, zero
+           ELSE IF l.field = "fingerprints" THEN {"flip", "flip2", "swap", "fresh", "zero", "several", "none"}
+           ELSE IF l.field = "answer_hash" THEN {"flip", "flip2", "swap", "fresh", "zero"}
+           ELSE {"flip", "flip2", "swap", "fresh", "other", "zero"}
 LieCases == UNION {{[step |-> l.step, field |-> l.field, how |-> h] : h \in Hows(l)} : l \in {x \in H!Lies : x.step # "none"}}
 
 ASSUME ndJsonSerialize(IOEnv.VERIF_OUT, SetToSeq(CornerCases))
